@@ -826,7 +826,10 @@ Section Sim.
           apply Forall2_app; [exact Ho|]. constructor; [apply out_rel_same; exact Hb|constructor].
         * apply IH. exact Ho.
       + destruct (existsb _ (w_tcp_listeners w)); [|do 6 eexists; split; [reflexivity|]; split; [reflexivity|exact Ho]].
-        apply IH. apply Forall2_app; [exact Ho|]. constructor; [apply out_rel_same; left; reflexivity|constructor].
+        do 6 eexists. split; [reflexivity|]. split; [reflexivity|].
+        apply Forall2_app; [exact Ho|].
+        constructor; [apply out_rel_same; left; reflexivity|].
+        constructor; [apply out_rel_same; exact Hb|constructor].
   Qed.
 
   Lemma failover_send_sim li local rs f b1 b2 p cs w :
